@@ -250,6 +250,7 @@ class Exec:
         self.subst = []            # (expr, value) equalities decided by concretize
         self.ite_reads = False
         self.concrete_inputs = None   # replay mode: sym() returns these values
+        self.deferred = None          # list while obligations are being batched (see flush)
 
     # ---------------------------------------------------------------- symbols
     def sym(self, name, ty):
@@ -334,11 +335,23 @@ class Exec:
         self.pcs.append(c); self.solver.add(c)
         return d
 
-    def require(self, cond, tag, detail=None):
+    def flush(self):
+        """discharge the obligations collected while self.deferred is a list: one query for the
+        conjunction, individual queries only if that fails"""
+        d = self.deferred; self.deferred = None
+        if not d: return
+        conj = z_and(*[c for c, _, _ in d])
+        if conj is True: return
+        if conj is not False and not self._check(z3.Not(conj)): return
+        for c, tag, detail in d: self.require(c, tag, detail, counted=True)
+
+    def require(self, cond, tag, detail=None, counted=False):
         """property obligation: pc => cond must be valid, else Violation with a model"""
         cond = tobool(cond)
-        self.env['obligations'] = self.env.get('obligations', 0) + 1
+        if not counted: self.env['obligations'] = self.env.get('obligations', 0) + 1
         if cond is True: return
+        if self.deferred is not None and cond is not False:
+            self.deferred.append((cond, tag, detail)); return
         neg = z_not(cond)
         if neg is True:
             raise Violation(tag, self.get_model(), detail)
@@ -418,6 +431,9 @@ class Exec:
         if t.startswith('b"'):
             b = rust_bytes_lit(t[1:])
             v = Opaque('bytes', b); self._constcache[t] = ('imm', v); return v
+        if '{closure@' in t:
+            m = re.search(r'\{closure@([^}]*?)(?: \(#\d+\))?\}', t)
+            return Closure(m.group(1), [])
         if t.startswith('{') or t.startswith('ZeroSized') or t.startswith('<'):
             return Opaque('const', t)
         # named const / promoted
